@@ -542,10 +542,20 @@ impl<D: Doc> Node<'_, D> {
     replacer: R,
   ) -> Vec<Edit<D>> {
     // TODO: support nested matches like Some(Some(1)) with pattern Some($A)
+    // matches do not overlap, but a replacer may widen the replaced range (expandStart/End):
+    // drop an edit that overlaps an earlier one, as the CLI does
+    let mut end = 0;
     Visitor::new(&matcher)
       .reentrant(false)
       .visit(self.clone())
       .map(|matched| matched.make_edit(&matcher, &replacer))
+      .filter(|edit| {
+        if edit.position < end {
+          return false;
+        }
+        end = edit.position + edit.deleted_length;
+        true
+      })
       .collect()
   }
 
